@@ -36,7 +36,8 @@ KINDS = ["inbound_req_basic", "inbound_req_threading", "inbound_req_threading_no
          "connect_failed_async", "cea_rejected", "cer_rejected_no_common_app", "unknown_peer", "ce_timeout",
          "refused_while_stopping", "late_and_unknown_answers", "conn_with_request_closed", "outbound_req_timeout",
          "conn_closed_mid_frame", "inbound_req_raise", "inbound_req_threading_raise",
-         "second_conn_cycles", "request_then_garbage", "inbound_req_threading_conn_gone"]
+         "second_conn_cycles", "request_then_garbage", "inbound_req_threading_conn_gone",
+         "inbound_req_dispatched_after_conn_gone"]
 PEER = "peer1.verif.example"
 
 
@@ -283,6 +284,56 @@ class Kind:
                 app.release.set()
                 time.sleep(0.01)
                 h.settle()
+        elif kind == "inbound_req_dispatched_after_conn_gone":
+            # the peer sends a request and goes away at once: the connection's read thread hands the request to the
+            # node after the I/O thread has already removed the connection (the hand-over is delayed - a delay only -
+            # until that has happened; bounded)
+            node = w.node
+            self.dispatched_late = 0
+
+            def wait_gone(conn):
+                end = time.time() + 1.0
+                while time.time() < end and conn.ident in node.connections:
+                    time.sleep(0.0005)
+                if conn.ident not in node.connections:
+                    self.dispatched_late += 1
+
+            # every second time the hand-over is delayed one step later: after the node has taken note of the
+            # request's origin, before it looks for the application
+            late_stage = set()
+            orig_app_request = node._receive_app_request
+
+            def delayed_app_request(conn, message):
+                if conn in late_stage:
+                    wait_gone(conn)
+                return orig_app_request(conn, message)
+
+            node._receive_app_request = delayed_app_request
+            for i in range(n):
+                sp = self.connect(i)
+                c = h.conn_of(sp)
+                if c is None:
+                    continue
+                if i % 2:
+                    late_stage.add(c)
+                else:
+                    orig = c.message_handler
+
+                    def delayed(conn, msg, orig=orig):
+                        if msg.header.is_request and msg.header.command_code == 272:
+                            wait_gone(conn)
+                        return orig(conn, msg)
+
+                    c.message_handler = delayed
+                hbh, e2e = self.ids()
+                sp.send(M.ccr(PEER, REALM, REALM, app=4, hbh=hbh, e2e=e2e, session=f"l;{i}"))
+                sp.close()
+                for _ in range(8):
+                    h.tick()
+                    if c.ident not in node.connections:
+                        break
+                h.settle()
+                late_stage.discard(c)
         elif kind == "request_then_garbage":
             # the connection closes itself (unparseable bytes) while answers to the requests before them are pending
             for i in range(n):
@@ -429,6 +480,13 @@ def run_shard(spec):
                 if k.late_answered < n // 2:
                     return {"evaluations": 0, "hashes": [], "witnesses": [], "samples": [], "coverage": cov,
                             "inconclusive": f"{kind}: only {k.late_answered} of {n} requests timed out before their answer"}
+            if kind == "inbound_req_dispatched_after_conn_gone":
+                cov["requests_dispatched_after_connection_removed"] = \
+                    cov.get("requests_dispatched_after_connection_removed", 0) + k.dispatched_late
+                if k.dispatched_late < n // 2:
+                    return {"evaluations": 0, "hashes": [], "witnesses": [], "samples": [], "coverage": cov,
+                            "inconclusive": f"{kind}: only {k.dispatched_late} of {n} requests were dispatched after "
+                                            f"their connection had been removed"}
     except Inconclusive as e:
         return {"evaluations": 0, "hashes": [], "witnesses": [], "samples": [], "coverage": cov,
                 "inconclusive": f"{kind}: {e}"}
